@@ -21,10 +21,16 @@
   is only required to be prefix-stable (hypothesis of the theorems, not of the model).
   The bytes of an ordinary (non-upgrade) reply are a parameter too (`Cfg.render`, C04).
 
+  The response object is C04's (`Mhd.Resp.Resp`: ordered header list, `flags_auto`, response
+  flags, built by `MHD_create_response_for_upgrade` + any sequence of API calls) and the 101
+  head is what C04's model of `build_header_response` (`Mhd.Reply.headSegs`, after
+  `setup_reply_properties`) writes for it — not a fixed text.
+
   Ghost fields (`sent`, `heads`, `handed`, `outq`, `log`) record history; no transition
   reads them.
 -/
 import Mhd.Gen.Upg
+import Mhd.Model.Reply
 
 namespace Mhd.Upg
 
@@ -108,15 +114,25 @@ structure Head where
 structure Parser where
   parse : Bytes → Option Head
 
-/-- response object as far as queueing and the 101 head depend on it -/
+/-- a response as the application queues it: the response object (C04's model of
+    `struct MHD_Response`: header list in order, `flags_auto`, response flags, upgrade handler
+    present), the status code passed to `MHD_queue_response`, and what the upgrade handler does -/
 structure Resp where
-  upgrade : Bool                    -- created by MHD_create_response_for_upgrade
+  obj : Mhd.Resp.Resp               -- built by MHD_create_response_* + add/del header, set options
   closeInHandler : Bool             -- application: the upgrade handler calls the CLOSE action itself
   code : Nat                        -- status code passed to MHD_queue_response
-  connHdr : Option Bytes            -- value of the "Connection" header (MHD_RAF_HAS_CONNECTION_HDR)
-  hdrs : List (Bytes × Bytes)       -- other headers, in order
-  flags10 : Bool                    -- MHD_RF_HTTP_1_0_COMPATIBLE_STRICT | MHD_RF_HTTP_1_0_SERVER
   deriving DecidableEq, Repr
+
+/-- `NULL != response->upgrade_handler` (created by MHD_create_response_for_upgrade) -/
+def Resp.upgrade (rs : Resp) : Bool := rs.obj.upgrade
+
+/-- `response->first_header->value` when `MHD_RAF_HAS_CONNECTION_HDR` is set (the "Connection"
+    header is kept first in the list), else absent -/
+def Resp.connHdr (rs : Resp) : Option Bytes :=
+  if rs.obj.fa.connHdr then rs.obj.hdrs.head?.map (·.value) else none
+
+/-- `MHD_RF_HTTP_1_0_COMPATIBLE_STRICT | MHD_RF_HTTP_1_0_SERVER` -/
+def Resp.flags10 (rs : Resp) : Bool := rs.obj.flags.http10Strict || rs.obj.flags.http10Server
 
 /-- scripted access handler for one request -/
 structure Beh where
@@ -129,26 +145,29 @@ structure Cfg where
   resp : Nat → Resp
   beh : Nat → Beh                    -- by request number (for this connection)
   date : Bytes                       -- value of the Date header (masked in the comparison)
+  suppressDate : Bool := false       -- MHD_USE_SUPPRESS_DATE_NO_CLOCK
   render : Nat → Bytes               -- bytes of an ordinary reply for response id (given, C04)
 
-def crlf : Bytes := [13, 10]
-def colonSp : Bytes := [58, 32]
+/-- what `build_header_response` reads from the connection when the reply is an accepted upgrade
+    response: `keepalive` is still UNKNOWN (set by `MHD_connection_set_initial_state_` /
+    `connection_reset`; requests with a body framing conflict, which force MUST_CLOSE, are outside
+    this model: requests without body).  Version, method, `discard_request` and the request's own
+    "Connection" tokens do not matter for an upgrade response (`headBytes_indep_of_request` in
+    Proofs/UpgHead101) -/
+def replyConn (cfg : Cfg) : Mhd.Reply.Conn :=
+  { keepalive := .unknown, ver := .v11, mthd := .get, suppressDate := cfg.suppressDate }
 
-/-- the three decimal digits of a status code (`MHD_queue_response` admits 100..999 only) -/
-def decDigits (n : Nat) : Bytes :=
-  [UInt8.ofNat (48 + n / 100 % 10), UInt8.ofNat (48 + n / 10 % 10), UInt8.ofNat (48 + n % 10)]
+/-- the bytes C04's model of `build_header_response` writes (all guarded writes, in order) for
+    response object `r` with status `code` on connection `c`, given enough room in the write
+    buffer (`Mhd.Reply.buildHeaderResponse` returns exactly this whenever it does not return
+    MHD_NO: `headBytes_is_buildHeaderResponse`) -/
+def headBytes (c : Mhd.Reply.Conn) (r : Mhd.Resp.Resp) (code : Nat) (date : Bytes) : Bytes :=
+  (((Mhd.Reply.headSegs c r code false (some date) (Mhd.Reply.setupReplyProperties c r code).1
+      (Mhd.Reply.setupReplyProperties c r code).2).map (·.piece)).flatten)
 
-def hdrLine (n v : Bytes) : Bytes := n ++ colonSp ++ v ++ crlf
-
-/-- the reply head of an accepted upgrade response, as `build_header_response` emits it:
-    status line, Date, the Connection header (kept verbatim: MHD_CONN_MUST_UPGRADE), the
-    other headers in order, empty line.  No Content-Length / Transfer-Encoding for 1xx. -/
-def head101 (cfg : Cfg) (rs : Resp) : Bytes :=
-  [72, 84, 84, 80, 47, 49, 46, 49, 32] ++ decDigits rs.code ++ [32] ++ Mhd.Gen.Upg.reason101 ++ crlf
-  ++ hdrLine Mhd.Gen.Upg.hdrDate cfg.date
-  ++ hdrLine Mhd.Gen.Upg.hdrConnection (rs.connHdr.getD [])
-  ++ (rs.hdrs.map fun h => hdrLine h.1 h.2).flatten
-  ++ crlf
+/-- the reply head of an accepted upgrade response = the reply builder applied to its response
+    object (arbitrary flags / header list) -/
+def head101 (cfg : Cfg) (rs : Resp) : Bytes := headBytes (replyConn cfg) rs.obj rs.code cfg.date
 
 /-! ### Events -/
 
